@@ -105,6 +105,111 @@ class PropObj(codec.Obj):
 WRITING = dict(codec.PLAIN, dict=WDict, list=WList, tuple=WTuple, obj=WObj)
 
 
+# ---- realisation variants of the same abstract case ("nice" data is not the only data) ---------
+from collections import OrderedDict as _OD, namedtuple as _namedtuple
+
+
+class WODict(_OD):
+    """write-logging OrderedDict (codec.Heap fills it so that its own order differs from the raw dict order)"""
+    def __setitem__(self, k, v):
+        e = _ev(self, 'set', k)
+        if FAULT.get(id(self)) == 'wfault':
+            raise RuntimeError('injected __setitem__ fault')
+        _OD.__setitem__(self, k, v)
+        e['done'] = True
+
+    def __delitem__(self, k):
+        e = _ev(self, 'del', k)
+        if FAULT.get(id(self)) == 'dfault':
+            raise RuntimeError('injected __delitem__ fault')
+        _OD.__delitem__(self, k)
+        e['done'] = True
+
+
+class WSlotObj(object):
+    """a slotted attribute object: no __dict__, attributes limited to its slots (flag "slots")"""
+    __slots__ = ('a', 'b', 'x')
+
+    def __setattr__(self, name, v):
+        e = _ev(self, 'set', name)
+        if FAULT.get(id(self)) == 'wfault':
+            raise RuntimeError('injected __setattr__ fault')
+        object.__setattr__(self, name, v)
+        e['done'] = True
+
+    def __delattr__(self, name):
+        e = _ev(self, 'del', name)
+        if FAULT.get(id(self)) == 'dfault':
+            raise RuntimeError('injected __delattr__ fault')
+        object.__delattr__(self, name)
+        e['done'] = True
+
+
+class SlotObj(object):
+    __slots__ = ('a', 'b', 'x')
+
+
+_NT = {}
+
+
+class NTuple(tuple):
+    """'tuple' cells as namedtuple instances: a tuple subclass whose constructor does not take one iterable"""
+    __slots__ = ()
+
+    def __new__(cls, items=()):
+        items = tuple(items)
+        nt = _NT.get(len(items))
+        if nt is None:
+            nt = _NT[len(items)] = _namedtuple('NT%d' % len(items), ['f%d' % i for i in range(len(items))])
+        return nt(*items)
+
+
+def _odd(cls, eq=None):
+    """a subclass that is FALSY whatever it holds, passes __getitem__ / __iter__ / __len__ / __contains__
+    through its own overrides and, optionally, has a hostile __eq__ ('true': equal to everything,
+    'raise': comparing raises TypeError); identity hashing"""
+    ns = {'__bool__': lambda self: False}
+    if not issubclass(cls, codec.Obj):
+        ns['__slots__'] = ()
+        ns['__getitem__'] = lambda self, k: cls.__getitem__(self, k)
+        ns['__iter__'] = lambda self: cls.__iter__(self)
+        ns['__len__'] = lambda self: cls.__len__(self)
+        ns['__contains__'] = lambda self, k: cls.__contains__(self, k)
+    if eq == 'true':
+        ns['__eq__'] = lambda self, other: True
+        ns['__ne__'] = lambda self, other: False
+        ns['__hash__'] = lambda self: id(self) >> 4
+    elif eq == 'raise':
+        def _boom(self, other):
+            raise TypeError('hostile __eq__')
+        ns['__eq__'] = _boom
+        ns['__ne__'] = _boom
+        ns['__hash__'] = lambda self: id(self) >> 4
+    return type('Odd' + cls.__name__, (cls,), ns)
+
+
+VARIANTS = {
+    'falsy': dict(WRITING, dict=_odd(WDict), list=_odd(WList), tuple=_odd(WTuple), obj=_odd(WObj)),
+    'eq-true': dict(WRITING, dict=_odd(WDict, 'true'), list=_odd(WList, 'true'), obj=_odd(WObj, 'true')),
+    'eq-raise': dict(WRITING, dict=_odd(WDict, 'raise'), list=_odd(WList, 'raise'), obj=_odd(WObj, 'raise')),
+    'odict': dict(WRITING, dict=WODict),
+    'ntuple': dict(WRITING, tuple=NTuple),
+}
+VARIANT_ROTATION = ['falsy', 'ephemeral', 'eq-true', 'twice', 'odict', 'ntuple', 'falsy', 'eq-raise']
+
+
+def variant_applies(variant, case):
+    steps = case['steps'] + (case['val']['steps'] if case['kind'] == 'assign' else [])
+    if variant == 'odict':      # an OrderedDict instance accepts attributes, which the abstract dict does not
+        return any(c['cls'] == 'dict' for c in case['heap0']) and not any(st['op'] == '.' for st in steps) \
+            and case['missing'] != 'sdict'
+    if variant == 'ntuple':
+        return any(c['cls'] == 'tuple' for c in case['heap0'])
+    if variant in ('twice', 'ephemeral'):
+        return not any(case['flags'])
+    return True
+
+
 # ---- registries: which registry's handler performs a write -----------------------------------
 # The logging classes are registered, with handlers of the documented built-in behaviour (mapping
 # key / sequence index / attribute) that record which registry they belong to, on the default
@@ -135,6 +240,9 @@ def _register_logging_classes(register, tag):
              assign=_tagged(tag, _set_sequence_item), delete=_tagged(tag, _del_sequence_item))
     register(WObj, get=getattr, keys=_ObjStyleKeys.get_keys,
              assign=_tagged(tag, setattr), delete=_tagged(tag, delattr))
+    register(WODict, get=_op.getitem, keys=_OD.keys,
+             assign=_tagged(tag, _op.setitem), delete=_tagged(tag, _op.delitem))
+    register(WSlotObj, get=getattr, assign=_tagged(tag, setattr), delete=_tagged(tag, delattr))
 
 
 GLOMMER = Glommer()
@@ -177,14 +285,22 @@ def prime_and_drop(order):
 
 def build(case, logging, classes=None):
     """Real objects for the case's heap, faults installed."""
-    heap = codec.Heap([dict(c) for c in case['heap0']], classes or (WRITING if logging else codec.PLAIN))
-    heap.classes_used = classes or (WRITING if logging else codec.PLAIN)
+    classes = dict(classes or (WRITING if logging else codec.PLAIN))
+    classes['sobj'] = WSlotObj if logging else SlotObj
+    cells = [dict(c, cls='sobj') if f == 'slots' else dict(c) for c, f in zip(case['heap0'], case['flags'] + [''] * len(case['heap0']))]
+    heap = codec.Heap(cells, classes)
+    for c in heap.cells:
+        if c['cls'] == 'sobj':
+            c['cls'] = 'obj'
+    heap.classes_used = classes
     heap.n0 = len(case['heap0'])
     heap.created = []
     FAULT.clear()
     for a, f in enumerate(case['flags'], 1):
         if f == 'prop':
             heap.objs[a].__class__ = WPropObj if logging else PropObj
+        elif f == 'slots':
+            pass
         elif f:
             if not logging:
                 raise vlib.MachineryError('fault flags need the logging classes')
@@ -317,14 +433,42 @@ def exc_name(e):
     return codec.exc_class_name(e)
 
 
+def _attrs(o):
+    """attributes of an attribute object in order (instance dict, or the slots that are set)"""
+    if hasattr(o, '__dict__'):
+        return list(vars(o).items())
+    return [(n, getattr(o, n)) for n in type(o).__slots__ if hasattr(o, n)]
+
+
 def _children(o):
     if isinstance(o, dict):
-        return list(o.values())
-    if isinstance(o, (list, tuple)):
-        return list(o)
-    if isinstance(o, codec.Obj):
-        return list(vars(o).values())
+        return [v for _, v in (_OD.items(o) if isinstance(o, _OD) else dict.items(o))]
+    if isinstance(o, list):
+        return list(list.__iter__(o))
+    if isinstance(o, tuple):
+        return list(tuple.__iter__(o))
+    if isinstance(o, (codec.Obj, WSlotObj, SlotObj)):
+        return [v for _, v in _attrs(o)]
     return []
+
+
+def snapshot(heap):
+    """codec.Heap.snapshot, also for slotted objects"""
+    out = []
+    for a in range(1, len(heap.cells) + 1):
+        o = heap.objs[a]
+        if isinstance(o, (WSlotObj, SlotObj)):
+            items = [[heap.project(k), heap.project(v)] for k, v in _attrs(o)]
+        elif isinstance(o, dict):
+            items = [[heap.project(k), heap.project(v)] for k, v in (_OD.items(o) if isinstance(o, _OD) else dict.items(o))]
+        elif isinstance(o, (set, frozenset)):
+            items = sorted((heap.project(v) for v in o), key=repr)
+        elif isinstance(o, (list, tuple)):
+            items = [heap.project(v) for v in (list.__iter__(o) if isinstance(o, list) else tuple.__iter__(o))]
+        else:
+            items = [[heap.project(k), heap.project(v)] for k, v in vars(o).items()]
+        out.append({'cls': heap.cells[a - 1]['cls'], 'items': items})
+    return out
 
 
 def _number_created(heap, cls, reachable_only=False):
@@ -402,10 +546,10 @@ def _number_created(heap, cls, reachable_only=False):
 def _observe(heap, case, ok, cls, res, events, nfac, reachable_only=False, route='default'):
     """project what one evaluation did: outcome, returned object, final heap, write log"""
     obs = {'ok': ok, 'cls': cls, 'v': {'k': 'none'}}
-    _number_created(heap, case['missing'], reachable_only)
+    _number_created(heap, 'dict' if case['missing'] == 'sdict' else case['missing'], reachable_only)
     if ok:
         obs['v'] = heap.project(res)
-    obs['heap'] = heap.snapshot()
+    obs['heap'] = snapshot(heap)
     log = []
     for e in events:
         if e['ev'] == 'factory':
@@ -421,55 +565,100 @@ def _observe(heap, case, ok, cls, res, events, nfac, reachable_only=False, route
     return obs
 
 
-def run_case(case, spelling, logging, route='default', ephemeral=False):
+def _mutate_result(heap):
+    """between two evaluations of one spec object: the first target, and every container the first
+    evaluation made, get an extra entry (a later evaluation must not see or hand out any of them)"""
+    objs = [heap.objs[a] for a in sorted(heap.objs)]
+    for o in objs:
+        try:
+            if isinstance(o, dict):
+                (_OD if isinstance(o, _OD) else dict).__setitem__(o, '__mutated__', 1)
+            elif isinstance(o, list):
+                list.append(o, '__mutated__')
+            elif isinstance(o, codec.Obj):
+                object.__setattr__(o, '__mutated__', 1)
+        except Exception:
+            pass
+
+
+def run_case(case, spelling, logging, route='default', ephemeral=False, variant=None):
     """Perform the case on real objects; project every observable C11 / C12 name.
     route 'glommer': the call is made through the harness's Glommer (its own registry) instead of the
     module-level functions.  ephemeral: the target classes are made with type() for this one call,
-    after classes of other kinds were created, used and garbage-collected."""
+    after classes of other kinds were created, used and garbage-collected.  variant: another
+    realisation of the same abstract case (VARIANTS: falsy containers with pass-through overrides,
+    hostile __eq__, reordered OrderedDicts, namedtuples); variant 'twice': ONE spec object is evaluated
+    on the target, the target and everything made are mutated, and the same spec object is evaluated on
+    a fresh copy of the target -- that second evaluation is what is observed."""
     name, mk, s_rooted = spelling
     classes, primer = None, []
+    if isinstance(ephemeral, str):          # the variant name travels in the 'ephemeral' field of rows / replays
+        variant, ephemeral = (None, True) if ephemeral == 'ephemeral' else (ephemeral, False)
     if ephemeral:
         kinds = sorted({c['cls'] for c in case['heap0']} & {'dict', 'list', 'obj'})
         primer = prime_and_drop(kinds[1:] + kinds[:1] if len(kinds) > 1 else ['obj' if kinds == ['dict'] else 'dict'])
         classes = ephemeral_classes()
-    heap = build(case, logging, classes)
+    elif variant in VARIANTS:
+        classes = VARIANTS[variant]
     do_glom = GLOMMER.glom if route == 'glommer' else glom.glom
-    target = heap.val(case['root'])
+    rounds = 2 if variant == 'twice' else 1
+    ctx = {'heap': None, 'n': 0, 'shared': None}
     path = mk()
-    kw = {'scope': {'x': target}} if s_rooted else {}
-    nfac = [0]
-    del WLOG[:]
-    if case['kind'] == 'assign':
-        factory = None
-        if case['missing'] != 'none':
-            fcls = heap.classes_used[case['missing']]
+    spec = None
+    first = None
+    for rnd in range(rounds):
+        heap = build(case, logging, classes)
+        if first is not None:
+            for attr in ('literal', 'literal_shape', 'literal_root'):
+                if hasattr(first, attr):
+                    setattr(heap, attr, getattr(first, attr))
+        ctx.update(heap=heap, n=0, shared=None)
+        target = heap.val(case['root'])
+        kw = {'scope': {'x': target}} if s_rooted else {}
+        del WLOG[:]
+        if spec is None:
+            if case['kind'] == 'assign':
+                factory = None
+                if case['missing'] != 'none':
+                    fkind = 'dict' if case['missing'] == 'sdict' else case['missing']
 
-            def factory():
-                nfac[0] += 1
-                WLOG.append({'ev': 'factory', 'n': nfac[0]})
-                if nfac[0] == case['facfail']:
-                    raise RuntimeError('injected factory fault')
-                o = fcls()
-                heap.created.append(o)
-                return o
-        val = mk_val(heap, case['val'])
-        if name == 'dotted' and route == 'default':
-            call = lambda: glom.assign(target, path, val, missing=factory)
-        else:
-            call = lambda: do_glom(target, Assign(path, val, missing=factory), **kw)
-    else:
-        if name == 'dotted' and route == 'default':
-            call = lambda: glom.delete(target, path, ignore_missing=case['ignore'])
-        else:
-            call = lambda: do_glom(target, Delete(path, ignore_missing=case['ignore']), **kw)
-    ok, cls, res = True, '', None
-    try:
-        res = call()
-    except Exception as e:
-        ok, cls = False, exc_name(e)
-    events = list(WLOG)
-    del WLOG[:]
-    obs = _observe(heap, case, ok, cls, res, events, nfac[0], route=route)
+                    def factory():
+                        ctx['n'] += 1
+                        WLOG.append({'ev': 'factory', 'n': ctx['n']})
+                        if ctx['n'] == case['facfail']:
+                            raise RuntimeError('injected factory fault')
+                        if case['missing'] == 'sdict' and ctx['shared'] is not None:
+                            return ctx['shared']                # one shared container per evaluation
+                        o = ctx['heap'].classes_used[fkind]()
+                        ctx['shared'] = o
+                        ctx['heap'].created.append(o)
+                        return o
+                val = mk_val(heap, case['val'])
+                if name == 'dotted' and route == 'default' and rounds == 1:
+                    spec = ('assign', val, factory)
+                else:
+                    spec = Assign(path, val, missing=factory)
+            else:
+                if name == 'dotted' and route == 'default' and rounds == 1:
+                    spec = ('delete',)
+                else:
+                    spec = Delete(path, ignore_missing=case['ignore'])
+        ok, cls, res = True, '', None
+        try:
+            if isinstance(spec, tuple):
+                res = glom.assign(target, path, spec[1], missing=spec[2]) if spec[0] == 'assign' \
+                    else glom.delete(target, path, ignore_missing=case['ignore'])
+            else:
+                res = do_glom(target, spec, **kw)
+        except Exception as e:
+            ok, cls = False, exc_name(e)
+        events = list(WLOG)
+        del WLOG[:]
+        if rnd < rounds - 1:
+            first = heap
+            _number_created(heap, 'dict' if case['missing'] == 'sdict' else case['missing'])
+            _mutate_result(heap)
+    obs = _observe(heap, case, ok, cls, res, events, ctx['n'], route=route)
     if primer:
         obs['primer_problems'] = primer
     FAULT.clear()
@@ -484,7 +673,7 @@ def run_reuse(case1, case2, spelling, logging, mode):
     name, mk, s_rooted = spelling
     heaps = [build(case1, logging), build(case2, logging)]
     targets = [heaps[0].val(case1['root']), heaps[1].val(case2['root'])]
-    fcls = (WRITING if logging else codec.PLAIN)[case1['missing']]
+    fcls = (WRITING if logging else codec.PLAIN).get(case1['missing'], dict)
     ctx = {'n': 0, 'heaps': [heaps[0]]}
 
     def factory():
@@ -494,7 +683,10 @@ def run_reuse(case1, case2, spelling, logging, mode):
         for h in ctx['heaps']:
             h.created.append(o)
         return o
-    spec = Assign(mk(), mk_val(heaps[0], case1['val']), missing=factory)
+    if case1['kind'] == 'delete':
+        spec = Delete(mk(), ignore_missing=case1['ignore'])
+    else:
+        spec = Assign(mk(), mk_val(heaps[0], case1['val']), missing=factory)
     for attr in ('literal', 'literal_shape', 'literal_root'):       # the one literal value serves both evaluations
         if hasattr(heaps[0], attr):
             setattr(heaps[1], attr, getattr(heaps[0], attr))
@@ -511,6 +703,7 @@ def run_reuse(case1, case2, spelling, logging, mode):
             events = list(WLOG)
             del WLOG[:]
             out.append(_observe(h, case, ok, cls, res, events, ctx['n']))
+            _mutate_result(h)       # the first target (and what was made for it) changes before the spec is used again
     else:
         ctx['heaps'] = heaps
         del WLOG[:]
@@ -622,13 +815,21 @@ def replay_state(st, out, matcher_info=None):
             if (case['kind'] == 'assign' and case['missing'] != 'none') or \
                     (case['kind'] == 'delete' and case['steps'][-1]['op'] == 'P' and not case['ignore']):
                 routes.append(('glommer', False))
-            # on classes made with type() right after classes of other kinds were collected: a sample
+            # one more realisation of the same abstract case, in rotation: falsy containers with pass-through
+            # overrides, classes made with type() after others were collected, hostile __eq__, the spec
+            # object evaluated twice with a mutation in between, reordered OrderedDicts, namedtuples
             out['seq'] = out.get('seq', 0) + 1
-            if not any(case['flags']) and out['seq'] % EPHEMERAL_EVERY == 0:
-                routes.append(('default', True))
+            variant = VARIANT_ROTATION[out['seq'] % len(VARIANT_ROTATION)]
+            if not variant_applies(variant, case):
+                variant = 'falsy'
+            routes.append(('default', variant))
         for sp, (route, eph) in ((sp, r) for r in routes for sp in spellings(case['steps'])):
-            if eph and sp[0] not in ('dotted', 'Path'):
+            if eph and sp[0] not in ('Path', 'T'):
                 continue
+            if route == 'glommer' and sp[0] == 'Path-merged':
+                continue
+            if not logging and (sp[2] or sp[0] == 'Path-merged'):
+                continue        # plain builtins: the S-rooted and merged spellings are replayed on the logging classes only
             if route == 'glommer' and sp[2]:
                 continue        # Glommer.glom() supplies the scope itself: no S-rooted spelling
             try:
@@ -638,11 +839,11 @@ def replay_state(st, out, matcher_info=None):
             out['n'] += 1
             clause = conform_clause(case, exp, obs)
             how = sp[0] + (',logging' if logging else '') + (',via Glommer' if route == 'glommer' else '') \
-                + (',short-lived classes' if eph else '')
+                + (',variant ' + eph if eph else '')
             info = dict(case=case, exp=exp, obs=obs, spelling=sp[0], logging=logging, clause=clause, route=route,
                         ephemeral=eph, model=dict(out=st['out'], log=st['log']))
-            out['vac'][('route:' + route) if not eph else 'route:ephemeral'] = \
-                out['vac'].get(('route:' + route) if not eph else 'route:ephemeral', 0) + 1
+            vkey = ('route:' + route) if not eph else 'route:' + eph
+            out['vac'][vkey] = out['vac'].get(vkey, 0) + 1
             if clause:
                 out['bad'].append(dict(why='%s [%s]' % (clause, how), case=info))
                 continue
@@ -777,13 +978,15 @@ def rand_step(rng, cells, cur, valid):
         if c['items'] and c['cls'] in ('list', 'tuple'):
             n = len(c['items'])
             i = rng.randint(-n, n - 1)
+            if rng.random() < 0.25:         # boundaries: -len-1, -len, len-1, len, len+1 (some of them invalid)
+                i = rng.choice([-n - 1, -n, n - 1, n, n + 1])
             if rng.random() < 0.5:
                 return {'op': 'P', 'arg': _sv(str(i)) if rng.random() < 0.7 else _sv(i)}
             return {'op': '[', 'arg': _sv(i)}
     op = rng.choice(['P', 'P', '[', '.'])
     if op == '.':
         return {'op': op, 'arg': _sv(rng.choice(KEYS + ['x', 'y']))}
-    return {'op': op, 'arg': _sv(rng.choice(KEYS + ['x', 'y', '-1', '5', 0, 1, -1, 2, -4]))}
+    return {'op': op, 'arg': _sv(rng.choice(KEYS + ['x', 'y', '', '-1', '5', 0, 1, -1, 2, -4]))}
 
 
 def abstract_step(cells, cur, st):
@@ -870,6 +1073,9 @@ def rand_case(rng, kind):
             opts = ['wfault' if kind == 'assign' else 'dfault']
             if cells[a - 1]['cls'] == 'obj' and not any(k == _sv('r') for k, _ in cells[a - 1]['items']):
                 opts.append('prop')
+            if cells[a - 1]['cls'] == 'obj' and not has_star(steps) \
+                    and [k.get('s') for k, _ in cells[a - 1]['items']] in ([], ['a'], ['b'], ['a', 'b']):
+                opts.append('slots')
             flags[a - 1] = rng.choice(opts)
     if rng.random() < 0.1:
         steps[-1] = {'op': rng.choice(['.', 'P']), 'arg': _sv('r')}
@@ -884,11 +1090,14 @@ def rand_case(rng, kind):
                 vsteps = [s for s in vsteps if s['op'] != 'P']
             case['val']['steps'] = vsteps
         elif r < 0.4:
-            case['val']['v'] = rng.choice([_sv('s'), _sv(None), _sv(0)])
+            case['val']['v'] = rng.choice([_sv('s'), _sv(None), _sv(0), _sv(''), {'k': 'bool', 'b': False}])
         elif r < 0.55:
             case['val'] = rand_literal(rng)
         if rng.random() < 0.5:
-            case['missing'] = rng.choice(['dict', 'dict', 'obj', 'list'])
+            case['missing'] = rng.choice(['dict', 'dict', 'obj', 'list', 'sdict'])
+            if has_star(steps) and case['missing'] == 'sdict':
+                case['missing'] = 'dict'
+
             case['facfail'] = rng.choice([0, 0, 0, 1, 2, 3])
     else:
         case['ignore'] = rng.random() < 0.5
@@ -924,8 +1133,8 @@ def record_rows(rng, n, kind):
         case = rand_case(rng, kind)
         sps = spellings(case['steps'])
         sp = rng.choice(sps)
-        if kind == 'assign' and case['missing'] != 'none' and not any(case['flags']) and case['facfail'] == 0 \
-                and case['val']['k'] == 'lit' and rng.random() < 0.6:
+        if ((kind == 'assign' and case['missing'] not in ('none', 'sdict') and case['facfail'] == 0 and case['val']['k'] == 'lit'
+             and rng.random() < 0.6) or (kind == 'delete' and rng.random() < 0.15)) and not any(case['flags']):
             c2 = pruned_variant(rng, case)
             if c2 is not None:
                 pair = [case, c2] if rng.random() < 0.5 else [c2, case]
@@ -934,7 +1143,11 @@ def record_rows(rng, n, kind):
                 rows.append(dict(case=pair[1], obs=o2, spelling=sp[0], reuse='second'))
                 continue
         route = 'glommer' if rng.random() < 0.3 and not sp[2] else 'default'
-        eph = route == 'default' and not any(case['flags']) and rng.random() < 0.04
+        eph = False
+        if route == 'default' and rng.random() < 0.3:
+            eph = rng.choice(VARIANT_ROTATION)
+            if not variant_applies(eph, case):
+                eph = 'falsy'
         obs = run_case(case, sp, True, route=route, ephemeral=eph)
         rows.append(dict(case=case, obs=obs, spelling=sp[0], route=route, ephemeral=eph))
     return rows[:n]
@@ -1126,7 +1339,8 @@ class Driver:
             self.lap(check, 'tlc+replay ' + label)
         check.extra['behaviours_by_branch'] = dict(sorted(self.branches.items()))
         want = ['ok', 'fetch-parent', 'failed-write', 'fault-flag', 'wildcard', 'error:PathAccessError', 'error:any',
-                'route:glommer', 'route:ephemeral']
+                'route:glommer', 'route:ephemeral', 'route:falsy', 'route:eq-true', 'route:eq-raise', 'route:twice',
+                'route:odict', 'route:ntuple']
         want += ['factory-call', 'build-tail', 'store', 'reuse-shallower-then-deeper', 'reuse-deeper-then-shallower'] \
             if self.kind == 'assign' else ['del', 'error:PathDeleteError', 'lenient']
         if not all(self.branches.get(k) for k in want):
